@@ -98,10 +98,6 @@ def runHier {δ : Type} (diag : δ → String) (run : List (LvlIn Rat) → Excep
       | .error e => if k = 0 then "error:" ++ e else go (k - 1) fuel (if err = "" then e else err)
   go ls.length (ls.length + 1) ""
 
-def fullDiag {ι : Type} (showM : Mat Rat → String) (diag : ι → String) (n m nd rpb cpb : Nat) (A T B Bf : Mat Rat)
-    (cpts : Array Nat) (o : Out Rat ι) : String :=
-  report showM diag (chkFull n m nd rpb cpb A T B Bf cpts) (.ok o)
-
 def handle : List String → Option String
   | ["ext_c10d_hier", root, kry, wt, degree, preT, preK, postT, postK, maxiter, k1, n, nd, a, b, levels, tol, tolfit, bits] =>
     let o : Opts := { degree := nat degree, pre := ⟨optRat preT, optNat preK⟩, post := ⟨optRat postT, optNat postK⟩,
